@@ -9,7 +9,7 @@ import z3
 
 from vf.common import CEX, HOLDS, ObResult, Unit
 from vf.pysym.engine import Engine
-from vf.pysym.harness import conj, decide, model_value
+from vf.pysym.harness import brief, conj, decide, model_value
 from vf.pysym.values import ModelRaise, SBytes, SFile, SStr
 
 AI = "py7zr.archiveinfo"
@@ -339,7 +339,7 @@ def _cex(r, obligation, mk_replay, signature=None):
         return
     for w, obs, m in getattr(r, "_bad", []):
         r.cex.append({"witness": w, "signature": (signature(w) if signature else {"obligation": obligation}),
-                      "replay": mk_replay(w), "detail": repr(obs)[:300]})
+                      "replay": mk_replay(w), "detail": brief(obs)[:400]})
 
 
 # ---------------------------------------------------------------------------------------- replays
